@@ -1,12 +1,12 @@
 \* scaled-down wire format: block 10 bytes, headers legacy/recyclable/walsync = 2/3/5,
-\* up to 2 records of 0..7 bytes; Mode = c18
+\* up to 2 records of 0..8 bytes; Mode = c18
 SPECIFICATION Spec
 CONSTANTS
   B = 10
   HL = 2
   HR = 3
   HW = 5
-  MaxSize = 7
+  MaxSize = 8
   MaxRecs = 2
   Mode = "c18"
   ClaimLegacyOverlay = FALSE
